@@ -1,5 +1,6 @@
 mod c20;
 mod c22;
+mod c23;
 mod spec;
 mod worker;
 use vkit::{Check, Level};
@@ -8,11 +9,15 @@ fn main() {
     if args.get(1).map(String::as_str) == Some("--worker") {
         worker::main(&args[2]);
     }
+    if args.get(1).map(String::as_str) == Some("--tmp-worker") {
+        c23::worker(&args[2]);
+    }
     if args.get(1).map(String::as_str) == Some("--lock-try") {
         c22::lock_try(&args[2]);
     }
     vkit::main(&[
         Check { id: "C20", level: Level::FaultEnumeration, run: c20::run },
         Check { id: "C22", level: Level::ModelChecking, run: c22::run },
+        Check { id: "C23", level: Level::FaultEnumeration, run: c23::run },
     ]);
 }
